@@ -41,8 +41,13 @@ End AMap.
 (* ---- proxies ---- *)
 Inductive pstatus := PRunning | PClosed.
 (* p_ports = pxy.GetUsedPortsNum(): 1 for tcp/udp, 0 for the other types *)
-Record proxy := mkP { p_owner : N; p_name : N; p_att : N; p_ports : Z; p_status : pstatus }.
-Definition p_close (p : proxy) : proxy := mkP (p_owner p) (p_name p) (p_att p) (p_ports p) PClosed.
+(* p_vis: a visitor-type proxy (stcp, sudp): its Run() is VisitorManager.Listen(name, ...), which fails iff a
+   listener of that NAME exists, and its Close() is VisitorManager.CloseListener(name): delete by name *)
+Record proxy := mkP { p_owner : N; p_name : N; p_att : N; p_ports : Z; p_vis : bool; p_status : pstatus }.
+Definition p_close (p : proxy) : proxy := mkP (p_owner p) (p_name p) (p_att p) (p_ports p) (p_vis p) PClosed.
+
+(* what NewProxy / proxy.NewProxy derive from the proxy type: GetUsedPortsNum and visitor-type or not *)
+Record ptype := mkPT { pt_ports : Z; pt_vis : bool }.
 
 (* ---- program counters ---- *)
 (* RegisterControl goroutine of a session *)
@@ -56,8 +61,8 @@ Inductive lpc :=
 Inductive spc :=
 | SNone                                   (* Start has not run *)
 | SIdle                                   (* readLoop blocked in ReadMsg *)
-| SExist (name att : N) (np : Z) (runok : bool)  (* RegisterProxy: quota taken, before pxyManager.Exist *)
-| SRun (name att : N) (np : Z) (runok : bool)    (* before pxy.Run() *)
+| SExist (name att : N) (np : ptype) (runok : bool)  (* RegisterProxy: quota taken, before pxyManager.Exist *)
+| SRun (name att : N) (np : ptype) (runok : bool)    (* before pxy.Run() *)
 | SAddP (name pid : N)                    (* before pxyManager.Add *)
 | SRollback (name pid : N)                (* Add failed: deferred pxy.Close() pending *)
 | SStore (name pid : N)                   (* Add succeeded: ctl.proxies[name] = pxy pending *)
@@ -103,25 +108,29 @@ Record state := mkSt {
   sessions : list (N * session);     (* every Control ever created *)
   ctls : list (N * N);               (* ControlManager.ctlsByRunID : run id -> session *)
   pxys : list (N * N);               (* proxy.Manager.pxys : name -> proxy *)
-  proxies : list (N * proxy)         (* every proxy object ever Run *)
+  proxies : list (N * proxy);        (* every proxy object ever Run *)
+  vlis : list (N * N)                (* visitor.Manager.listeners : name -> proxy (stcp / sudp) *)
 }.
 
-Definition init_with (m : Z) : state := mkSt m 0 0 0 [] [] [] [].
+Definition init_with (m : Z) : state := mkSt m 0 0 0 [] [] [] [] [].
 Definition init : state := init_with 0.
 
-Definition set_next_sid st v := mkSt (maxports st) v (next_pid st) (addctr st) (sessions st) (ctls st) (pxys st) (proxies st).
-Definition set_next_pid st v := mkSt (maxports st) (next_sid st) v (addctr st) (sessions st) (ctls st) (pxys st) (proxies st).
-Definition set_addctr st v := mkSt (maxports st) (next_sid st) (next_pid st) v (sessions st) (ctls st) (pxys st) (proxies st).
-Definition set_sessions st v := mkSt (maxports st) (next_sid st) (next_pid st) (addctr st) v (ctls st) (pxys st) (proxies st).
-Definition set_ctls st v := mkSt (maxports st) (next_sid st) (next_pid st) (addctr st) (sessions st) v (pxys st) (proxies st).
-Definition set_pxys st v := mkSt (maxports st) (next_sid st) (next_pid st) (addctr st) (sessions st) (ctls st) v (proxies st).
-Definition set_proxies st v := mkSt (maxports st) (next_sid st) (next_pid st) (addctr st) (sessions st) (ctls st) (pxys st) v.
+Definition set_next_sid st v := mkSt (maxports st) v (next_pid st) (addctr st) (sessions st) (ctls st) (pxys st) (proxies st) (vlis st).
+Definition set_next_pid st v := mkSt (maxports st) (next_sid st) v (addctr st) (sessions st) (ctls st) (pxys st) (proxies st) (vlis st).
+Definition set_addctr st v := mkSt (maxports st) (next_sid st) (next_pid st) v (sessions st) (ctls st) (pxys st) (proxies st) (vlis st).
+Definition set_sessions st v := mkSt (maxports st) (next_sid st) (next_pid st) (addctr st) v (ctls st) (pxys st) (proxies st) (vlis st).
+Definition set_ctls st v := mkSt (maxports st) (next_sid st) (next_pid st) (addctr st) (sessions st) v (pxys st) (proxies st) (vlis st).
+Definition set_pxys st v := mkSt (maxports st) (next_sid st) (next_pid st) (addctr st) (sessions st) (ctls st) v (proxies st) (vlis st).
+Definition set_proxies st v := mkSt (maxports st) (next_sid st) (next_pid st) (addctr st) (sessions st) (ctls st) (pxys st) v (vlis st).
+Definition set_vlis st v := mkSt (maxports st) (next_sid st) (next_pid st) (addctr st) (sessions st) (ctls st) (pxys st) (proxies st) v.
 Definition put st (s : N) (x : session) := set_sessions st (aset s x (sessions st)).
 
 (* pxy.Close() *)
 Definition close_proxy st (pid : N) : state :=
   match alookup pid (proxies st) with
-  | Some p => set_proxies st (aset pid (p_close p) (proxies st))
+  | Some p =>
+      set_vlis (set_proxies st (aset pid (p_close p) (proxies st)))
+               (if p_vis p then aremove (p_name p) (vlis st) else vlis st)
   | None => st
   end.
 
@@ -133,7 +142,7 @@ Inductive out :=
 | ONewProxyResp (sid name att err : N) (delivered : bool).
 
 Inductive request :=
-| RNew (name att : N) (np : Z) (cfgok runok : bool)
+| RNew (name att : N) (np : ptype) (cfgok runok : bool)
 | RClose (name : N).
 
 Inductive tid := TLogin (s : N) | TSess (s : N) | TLate (s : N).
@@ -208,16 +217,19 @@ Definition step_sess (st : state) (s : N) (x : session) (pick : N) : option (sta
       if s_closed x then Some (put st s (with_spc x TPool), []) else None
   | SExist name att np runok =>
       match alookup name (pxys st) with
-      | Some _ => Some (put st s (with_spc (quota_back st x np) SIdle), resp x s name att 2)
+      | Some _ => Some (put st s (with_spc (quota_back st x (pt_ports np)) SIdle), resp x s name att 2)
       | None => Some (put st s (with_spc x (SRun name att np runok)), [])
       end
   | SRun name att np runok =>
-      if runok then
+      (* pxy.Run(): a visitor-type proxy fails iff a listener of its name exists; otherwise the oracle decides *)
+      let listen_ok := if pt_vis np then match alookup name (vlis st) with Some _ => false | None => true end else true in
+      if runok && listen_ok then
         let pid := next_pid st in
-        let st1 := set_proxies st (aset pid (mkP s name att np PRunning) (proxies st)) in
+        let st0 := set_vlis st (if pt_vis np then aset name pid (vlis st) else vlis st) in
+        let st1 := set_proxies st0 (aset pid (mkP s name att (pt_ports np) (pt_vis np) PRunning) (proxies st)) in
         let st2 := put st1 s (with_spc x (SAddP name pid)) in
         Some (set_next_pid st2 (pid + 1), [])
-      else Some (put st s (with_spc (quota_back st x np) SIdle), resp x s name att 3)
+      else Some (put st s (with_spc (quota_back st x (pt_ports np)) SIdle), resp x s name att 3)
   | SAddP name pid =>
       (* Manager.Add under pm.mu: fails if present *)
       match alookup name (pxys st) with
@@ -260,8 +272,8 @@ Definition step_req (st : state) (s : N) (x : session) (r : request) : option (s
           if cfgok then
             (* quota check and reservation under ctl.mu, only when a limit is configured *)
             if (0 <? maxports st)%Z then
-              if (maxports st <? s_ports x + np)%Z then Some (st, resp x s name att 5)
-              else Some (put st s (with_spc (with_ports x (s_ports x + np)%Z) (SExist name att np runok)), [])
+              if (maxports st <? s_ports x + pt_ports np)%Z then Some (st, resp x s name att 5)
+              else Some (put st s (with_spc (with_ports x (s_ports x + pt_ports np)%Z) (SExist name att np runok)), [])
             else Some (put st s (with_spc x (SExist name att np runok)), [])
           else Some (st, resp x s name att 1)
       | RClose name =>
